@@ -489,6 +489,10 @@ func (m *Module) Search(serviceID string, query map[string]string) ([]SearchResu
 	}
 	var result []SearchResult
 	for _, matchingVP := range matchingVPs {
+		if matchingVP.IsType(retractionPresentationType) {
+			// a retraction is listed to inform clients that a presentation was retracted, it is not a registration itself
+			continue
+		}
 		// Match credentials to Presentation Definition, to resolve map with InputDescriptorId -> CredentialValue
 		submissionVCs, inputDescriptorMappingObjects, err := service.PresentationDefinition.Match(matchingVP.VerifiableCredential)
 		var fields map[string]interface{}
